@@ -74,7 +74,7 @@ func runC07(c *Ctx) {
 				}
 				nret++
 				_, rev := hasLit(rs.State, mustRe(`^called:EVM#0\.StateDB\.RevertToSnapshot\(EVM#0\.StateDB\.Snapshot\(\)\)$`))
-				_, errNil := hasLit(rs.State, mustRe(`^(new\(error\)|vm\.run\(.*\)#1|phi:err) == nil$`))
+				_, errNil := hasLit(rs.State, mustRe(`^(new\(error\)|vm\.run\(.*\)#1|` + PH + `) == nil$`))
 				okk := rev || errNil
 				detail := ""
 				if !okk {
@@ -151,15 +151,15 @@ func runC07(c *Ctx) {
 
 	c.Rule("C07-R3", "interpreter pipeline: valid, stack validated, restrictions enforced, memory size overflow-checked, gas paid before execute; memory grows only after payment", func() {
 		run := c.Fn("core/vm:(*Interpreter).Run")
-		op := `var:operation`
+		op := `var:\w+` // the local holding the current operation, whatever it is called
 		metered := `^Interpreter#0\.cfg\.DisableGasMetering$`
-		c.MustBefore("C07-R3", run, `^dyn:var:operation\.execute$`, 1, []LitReq{
+		c.MustBefore("C07-R3", run, `^dyn:var:\w+\.execute$`, 1, []LitReq{
 			{Name: "operation is valid", Re: `^` + op + `\.valid$`},
 			{Name: "stack validated", Re: `^dyn:` + op + `\.validateStack\(.*\) == nil$`},
 			{Name: "static-call restrictions enforced", Re: `^Interpreter#0\.enforceRestrictions\(.*\) == nil$`},
 			{Name: "memory size did not overflow uint64", Unless: `^` + op + `\.memorySize == nil$`, Re: `^!vm\.bigUint64\(dyn:` + op + `\.memorySize\(.*\)\)#1$`},
 			{Name: "word-rounded memory size did not overflow", Unless: `^` + op + `\.memorySize == nil$`, Re: `^!math\.SafeMul\(vm\.toWordSize\(.*\), 32\)#1$`},
-			{Name: "gas cost computed without error", Unless: metered, Re: `^(dyn:` + op + `\.gasCost\(.*\)#1 == nil|var:err == nil|new\(error\) == nil)$`},
+			{Name: "gas cost computed without error", Unless: metered, Re: `^(dyn:` + op + `\.gasCost\(.*\)#1 == nil|var:\w+ == nil|new\(error\) == nil)$`},
 			{Name: "gas paid", Unless: metered, Re: `^.*\.UseGas\(.*\)$`},
 		})
 		c.MustBefore("C07-R3", run, `^Memory\.Resize$`, 1, []LitReq{
@@ -169,13 +169,13 @@ func runC07(c *Ctx) {
 		// Resize argument is that same value
 		for _, s := range callSites(run, `^Memory\.Resize$`) {
 			t := c.termOf(run, s.Common().Args[1])
-			c.Ob("C07-R3", "Interpreter.Run: Resize(memorySize) uses the checked size", c.Position(s.Pos()), strings.Contains(t, "memorySize") || strings.Contains(t, "SafeMul"), "argument: "+t)
+			c.Ob("C07-R3", "Interpreter.Run: Resize(memorySize) uses the checked size", c.Position(s.Pos()), c07IsCheckedSize(run, s.Common().Args[1]), "argument: "+t)
 		}
 		// the same memorySize value is what gasCost was charged for
-		for _, s := range callSites(run, `^dyn:var:operation\.gasCost$`) {
+		for _, s := range callSites(run, `^dyn:var:\w+\.gasCost$`) {
 			a := s.Common().Args
 			t := c.termOf(run, a[len(a)-1])
-			c.Ob("C07-R3", "Interpreter.Run: gasCost is charged for the size memory will be resized to", c.Position(s.Pos()), strings.Contains(t, "memorySize") || strings.Contains(t, "SafeMul"), "last argument: "+t)
+			c.Ob("C07-R3", "Interpreter.Run: gasCost is charged for the size memory will be resized to", c.Position(s.Pos()), c07IsCheckedSize(run, a[len(a)-1]), "last argument: "+t)
 		}
 	})
 	c.Min("C07-R3", 11)
@@ -311,8 +311,8 @@ func runC07(c *Ctx) {
 		if len(ms.AnonFuncs) == 1 {
 			cf := ms.AnonFuncs[0]
 			c.MustOnAccept("C07-R6", cf, -1, false, []LitReq{
-				{Name: "validateStack requires `pop` items", Re: `^Stack#0\.require\(fv:pop\) == nil$`},
-				{Name: "validateStack enforces the 1024 stack limit", Re: `^\(\(Stack#0\.len\(\) \+ fv:push\) - fv:pop\) <= 1024$`},
+				{Name: "validateStack requires `pop` items", Re: `^Stack#0\.require\(fv:int#0\) == nil$`},
+				{Name: "validateStack enforces the 1024 stack limit", Re: `^\(\(Stack#0\.len\(\) \+ fv:int#1\) - fv:int#0\) <= 1024$`},
 			})
 		} else {
 			c.Ob("C07-R6", "makeStackFunc returns one closure", c.FnPos(ms), false, "")
@@ -635,4 +635,35 @@ func vmMemoryOperandRule(c *Ctx, rule string, tabs *vmTables) {
 		ok := t == "common.Big0" && rs.State.lits["Int#1 == 0"] || t == "new(Int).Add(Int#0, Int#1)" && rs.State.lits["Int#1 != 0"]
 		c.Ob(rule, "calcMemSize: zero length needs no memory, otherwise offset+length", c.Position(rs.Ret.Pos()), ok, "returns "+t+" under "+strings.Join(guardLits(rs.State), "; "))
 	}
+}
+
+// c07IsCheckedSize: v is (a load of the local that holds) the first result of math.SafeMul(toWordSize(..), 32):
+// identified by what is stored into the local, not by its name.
+func c07IsCheckedSize(fn *ssa.Function, v ssa.Value) bool {
+	isSafeMul := func(x ssa.Value) bool {
+		ex, ok := x.(*ssa.Extract)
+		if !ok || ex.Index != 0 {
+			return false
+		}
+		call, ok := ex.Tuple.(*ssa.Call)
+		return ok && calleeName(&call.Call) == "math.SafeMul"
+	}
+	if isSafeMul(v) {
+		return true
+	}
+	for _, l := range phiLeaves(v) {
+		if isSafeMul(l) {
+			return true
+		}
+	}
+	if u, ok := v.(*ssa.UnOp); ok {
+		if al, ok := u.X.(*ssa.Alloc); ok {
+			for _, st := range storesInto(fn, al) {
+				if isSafeMul(st) {
+					return true
+				}
+			}
+		}
+	}
+	return false
 }
